@@ -85,6 +85,25 @@ def run(ctx):
         raise AnalysisError("anchor BaseInput.combine_dataframe vanished")
     check_no_mutation(ctx, "R6.1", [cdf], lambda fi, o: o[0] == "P", "its DataFrame argument", "the assembled table is modified in place")
 
+    # ---------------- R6.3 / R6.4: references are found and substituted the same way everywhere
+    ctx.rule("R6.3", "every reference substitution during assembly goes through the n/a-aware splicer")
+    ctx.rule("R6.4", "assembly and sidecar validation extract {column} references with the same pattern and flags")
+    from rules.c08 import reference_regex_agreement
+    reference_regex_agreement(ctx, "R6.4")
+    ctx.saw(hcb)
+    spl = [c for c in ast.walk(hcb.node) if isinstance(c, ast.Call) and call_name(c) == "replace_ref"]
+    ctx.check(bool(spl), "R6.3", hcb.qualname, "use of replace_ref", loc(hcb, hcb.node),
+              "_handle_curly_braces_refs no longer substitutes references through replace_ref (the only place that removes "
+              "the delimiters around a missing value)", desc="references substituted through replace_ref")
+    for c in ast.walk(hcb.node):
+        if isinstance(c, ast.Call) and isinstance(c.func, ast.Attribute) and c.func.attr == "replace" and c.args:
+            a0 = c.args[0]
+            braces = isinstance(a0, ast.JoinedStr) or "{" in norm(a0) or "bracket" in norm(a0).lower()
+            if braces:
+                ctx.violation("R6.3", hcb.qualname, c, loc(hcb, c),
+                              "a reference is substituted with plain str.replace, bypassing the n/a-aware splicer: a missing "
+                              "cell leaves its comma / parentheses behind (`, Blue`, `(Label/33, )`)")
+
     # ---------------- R6.2
     ctx.saw(cdf)
     comb = set()
